@@ -5,7 +5,7 @@ P=$(realpath "$1"); PROP=$2; TIER=${3:-quick}
 cd /repo || exit 2
 if ! git diff --quiet; then echo "/repo dirty, refusing"; exit 2; fi
 git apply "$P" || { echo "patch does not apply"; exit 2; }
-cd /verif && ./bin/verif check "$PROP" "$TIER"; rc=$?
+cd /verif && VERIF_EVIDENCE_DIR=/var/tmp/ev ./bin/verif check "$PROP" "$TIER"; rc=$?
 git -C /repo checkout -- . 
 git -C /repo status --short | grep -v '^??' 
 echo "trymut exit=$rc"
